@@ -119,9 +119,11 @@ theorem lex_noLB (cfg : Cfg) (s : Str) (hs : 123 ∉ s) : lex cfg s = textTok s 
 
 theorem lexVal_noLB (cfg : Cfg) (s : Str) (hs : 123 ∉ s) : lexVal cfg s = valTok s := by
   unfold lexVal
-  rw [lex_noLB cfg s hs]
-  unfold textTok valTok
-  split <;> simp [toVal]
+  split
+  · subst_vars; rfl
+  · rename_i h
+    rw [lex_noLB cfg s hs]
+    simp [textTok, valTok, h, toVal]
 
 /-! ### conditional and loop passes on a flattened grammar template -/
 
@@ -348,7 +350,7 @@ def loopSubst (kvs : List (Str × Str)) : Tok → List Tok
   | t => [t]
 
 theorem loopSubst_valTok (kvs : List (Str × Str)) (v : Str) : (valTok v).flatMap (loopSubst kvs) = valTok v := by
-  unfold valTok; split <;> simp [loopSubst]
+  simp [valTok, loopSubst]
 
 theorem substTok_noLB (cfg : Cfg) (kvs : List (Str × Str)) (body : List Tok) (h : ValsNoLB kvs) :
     substTok cfg kvs body = body.flatMap (loopSubst kvs) := by
@@ -392,7 +394,7 @@ theorem tokB_of_not_pipe (cfg : Cfg) (ctx : Ctx) (t : Tok) (h : isPipe t = false
   cases t <;> simp_all [tokB, isPipe]
 
 theorem mem_valTok {x : Tok} {v : Str} (h : x ∈ valTok v) : x = .val v := by
-  unfold valTok at h; split at h <;> simp_all
+  simpa [valTok] using h
 
 theorem foldl_replB (cfg : Cfg) (ctx : Ctx) (hctx : ∀ n, NoLB (textOf ctx n)) (M cur : List Tok)
     (hM : ∀ m ∈ M, isPipe m = true) (hMc : ∀ n a, Tok.pipe n a ∈ M → NoLB a) :
@@ -480,13 +482,13 @@ def gV (cfg : Cfg) (ctx : Ctx) (t : Tok) : List Tok :=
   ((tokB cfg ctx t).flatMap (tokC cfg ctx)).flatMap (tokD cfg ctx)
 
 theorem valTok_tokC (cfg : Cfg) (ctx : Ctx) (v : Str) : (valTok v).flatMap (tokC cfg ctx) = valTok v := by
-  unfold valTok; split <;> simp [tokC]
+  simp [valTok, tokC]
 
 theorem valTok_tokD (cfg : Cfg) (ctx : Ctx) (v : Str) : (valTok v).flatMap (tokD cfg ctx) = valTok v := by
-  unfold valTok; split <;> simp [tokD]
+  simp [valTok, tokD]
 
 theorem valTok_gV (cfg : Cfg) (ctx : Ctx) (v : Str) : (valTok v).flatMap (gV cfg ctx) = valTok v := by
-  unfold valTok; split <;> simp [gV, tokB, tokC, tokD]
+  simp [valTok, gV, tokB, tokC, tokD]
 
 theorem mem_flatMapO {α β : Type} {f : α → Option (List β)} {ts : List α} {r : List β} {x : β}
     (h : flatMapO f ts = some r) (hx : x ∈ r) : ∃ t ∈ ts, ∃ l, f t = some l ∧ x ∈ l := by
@@ -777,14 +779,14 @@ theorem lookup_tokReg (n : Str) (reg : SReg) : lookup n (tokReg reg) = (lookup n
 theorem flatMapO_singleton {α β : Type} (f : α → Option (List β)) (t : α) : flatMapO f [t] = f t := by
   simp only [flatMapO]; cases f t <;> simp
 
-theorem renderTok_succ_opt (cfg : Cfg) (hs : cfg.strict = false) (reg' : Reg) (ctx : Ctx) (fuel : Nat) (ts : List Tok) :
-    (renderTok cfg reg' ctx (fuel + 1) ts).toOption.map Prod.fst =
-      (flatMapM (incTok cfg reg' (fun b => renderTok cfg reg' ctx fuel b))
+theorem renderTok_succ_opt (cfg : Cfg) (reg' : Reg) (ctx : Ctx) (fuel : Nat) (ts : List Tok) :
+    (renderTok cfg false reg' ctx (fuel + 1) ts).toOption.map Prod.fst =
+      (flatMapM (incTok cfg reg' (fun b => renderTok cfg false reg' ctx fuel b))
           (loopPass cfg ctx (condPass ctx ts))).toOption.bind
         (fun t3 => (flatMapM (tokA cfg ctx) t3).toOption.map
           (fun t4 => ((passB cfg ctx t4).flatMap (tokC cfg ctx)).flatMap (tokD cfg ctx))) := by
-  simp only [renderTok, hs, Bool.false_and, Bool.false_eq_true, ↓reduceIte]
-  generalize flatMapM (incTok cfg reg' (fun b => renderTok cfg reg' ctx fuel b))
+  simp only [renderTok, Bool.false_and, Bool.false_eq_true, ↓reduceIte]
+  generalize flatMapM (incTok cfg reg' (fun b => renderTok cfg false reg' ctx fuel b))
     (loopPass cfg ctx (condPass ctx ts)) = A
   cases A with
   | error e => rfl
@@ -807,7 +809,7 @@ theorem specToks_succ (fuel : Nat) (t : Tmpl) :
 
 /-- one token through the include pass and then the (fused) variable pass -/
 def hT (fuel : Nat) (t : Tok) : Option (List Tok) :=
-  ((incTok cfg (tokReg reg) (fun b => renderTok cfg (tokReg reg) ctx fuel b) t).toOption).bind
+  ((incTok cfg (tokReg reg) (fun b => renderTok cfg false (tokReg reg) ctx fuel b) t).toOption).bind
     (flatMapO (fun x => (semV cfg ctx x).toOption))
 
 variable (hbf : BF cfg ctx)
@@ -820,14 +822,14 @@ theorem stable_fix {r : List Tok} (h : ∀ x ∈ r, Stable cfg ctx x) :
 include hbf hreg in
 theorem hT_eq (fuel : Nat)
     (IH : ∀ n b, lookup n reg = some b →
-      (renderTok cfg (tokReg reg) ctx fuel (flatten b)).toOption.map Prod.fst = (specToks cfg reg ctx fuel b).toOption)
+      (renderTok cfg false (tokReg reg) ctx fuel (flatten b)).toOption.map Prod.fst = (specToks cfg reg ctx fuel b).toOption)
     (t : Tok) (hc : t.clean) :
     hT cfg reg ctx fuel t = (specTok cfg ctx (incS cfg reg ctx fuel) [] t).toOption := by
   have hsemV : ∀ t' : Tok, (∀ n, t' ≠ .inc n) →
       hT cfg reg ctx fuel t' = (semV cfg ctx t').toOption := by
     intro t' hni
     unfold hT
-    have : incTok cfg (tokReg reg) (fun b => renderTok cfg (tokReg reg) ctx fuel b) t' = .ok [t'] := by
+    have : incTok cfg (tokReg reg) (fun b => renderTok cfg false (tokReg reg) ctx fuel b) t' = .ok [t'] := by
       cases t' <;> first | rfl | exact absurd rfl (hni _)
     rw [this]
     simp only [Except.toOption, Option.bind]
@@ -848,7 +850,7 @@ theorem hT_eq (fuel : Nat)
       have ih := IH n b hl
       have hst := specToks_stable cfg reg ctx (fun n => stable_textTok cfg ctx _)
         (fun n b h => (hreg n b h).2) fuel b (hreg n b hl).2
-      cases hr : renderTok cfg (tokReg reg) ctx fuel (flatten b) with
+      cases hr : renderTok cfg false (tokReg reg) ctx fuel (flatten b) with
       | error e =>
         rw [hr] at ih
         simp only [Except.toOption, Option.map, Option.bind] at ih ⊢
@@ -879,7 +881,7 @@ theorem hT_eq (fuel : Nat)
 include hbf hreg in
 theorem hT_loopSubst (fuel : Nat)
     (IH : ∀ n b, lookup n reg = some b →
-      (renderTok cfg (tokReg reg) ctx fuel (flatten b)).toOption.map Prod.fst = (specToks cfg reg ctx fuel b).toOption)
+      (renderTok cfg false (tokReg reg) ctx fuel (flatten b)).toOption.map Prod.fst = (specToks cfg reg ctx fuel b).toOption)
     (kvs : List (Str × Str)) (t : Tok) (hc : t.clean) :
     flatMapO (hT cfg reg ctx fuel) (loopSubst kvs t) = (specTok cfg ctx (incS cfg reg ctx fuel) kvs t).toOption := by
   have hval : ∀ v, flatMapO (hT cfg reg ctx fuel) (valTok v) = some (valTok v) := by
@@ -918,7 +920,7 @@ theorem hT_loopSubst (fuel : Nat)
 include hbf hreg in
 theorem hT_items (fuel : Nat)
     (IH : ∀ n b, lookup n reg = some b →
-      (renderTok cfg (tokReg reg) ctx fuel (flatten b)).toOption.map Prod.fst = (specToks cfg reg ctx fuel b).toOption)
+      (renderTok cfg false (tokReg reg) ctx fuel (flatten b)).toOption.map Prod.fst = (specToks cfg reg ctx fuel b).toOption)
     (len : Nat) (b : List Tok) (hb : ∀ t ∈ b, t.clean) (its : List Item)
     (hits : ∀ it ∈ its, NoLB it.text ∧ ∀ p ∈ it.fields, NoLB p.2) (i : Nat) :
     flatMapO (hT cfg reg ctx fuel) (expandItemsTok cfg len b i its)
@@ -938,7 +940,7 @@ theorem hT_items (fuel : Nat)
 include hbf hreg in
 theorem hT_seg (fuel : Nat)
     (IH : ∀ n b, lookup n reg = some b →
-      (renderTok cfg (tokReg reg) ctx fuel (flatten b)).toOption.map Prod.fst = (specToks cfg reg ctx fuel b).toOption)
+      (renderTok cfg false (tokReg reg) ctx fuel (flatten b)).toOption.map Prod.fst = (specToks cfg reg ctx fuel b).toOption)
     (s : Seg) (hc : s.clean) :
     flatMapO (hT cfg reg ctx fuel) (midSeg cfg ctx s) = (specSeg cfg ctx (incS cfg reg ctx fuel) s).toOption := by
   have hK := hT_eq cfg reg ctx hbf hreg fuel IH
@@ -1018,9 +1020,9 @@ theorem midSeg_clean (s : Seg) (hc : s.clean) : ∀ x ∈ midSeg cfg ctx s, x.cl
 include hbf hreg in
 theorem incTok_clean (fuel : Nat)
     (IH : ∀ n b, lookup n reg = some b →
-      (renderTok cfg (tokReg reg) ctx fuel (flatten b)).toOption.map Prod.fst = (specToks cfg reg ctx fuel b).toOption)
+      (renderTok cfg false (tokReg reg) ctx fuel (flatten b)).toOption.map Prod.fst = (specToks cfg reg ctx fuel b).toOption)
     (t0 : Tok) (hc : t0.clean) (l : List Tok)
-    (h : (incTok cfg (tokReg reg) (fun b => renderTok cfg (tokReg reg) ctx fuel b) t0).toOption = some l) :
+    (h : (incTok cfg (tokReg reg) (fun b => renderTok cfg false (tokReg reg) ctx fuel b) t0).toOption = some l) :
     ∀ x ∈ l, x.clean := by
   cases t0 with
   | inc n =>
@@ -1041,7 +1043,7 @@ theorem incTok_clean (fuel : Nat)
       have ih := IH n b hl
       have hst := specToks_stable cfg reg ctx (fun n => stable_textTok cfg ctx _)
         (fun n b h => (hreg n b h).2) fuel b (hreg n b hl).2
-      cases hr : renderTok cfg (tokReg reg) ctx fuel (flatten b) with
+      cases hr : renderTok cfg false (tokReg reg) ctx fuel (flatten b) with
       | error e => rw [hr] at h; simp [Except.toOption] at h
       | ok xw =>
         obtain ⟨x0, w⟩ := xw
@@ -1064,9 +1066,9 @@ theorem incTok_clean (fuel : Nat)
 
 include hbf hreg in
 /-- token-level passes = single expansion (token lists, errors compared as "no output") -/
-theorem tok_eq_spec_aux (hs : cfg.strict = false) :
+theorem tok_eq_spec_aux :
     ∀ (fuel : Nat) (t : Tmpl), (∀ s ∈ t, s.wf = true) → (∀ s ∈ t, s.clean) →
-      (renderTok cfg (tokReg reg) ctx fuel (flatten t)).toOption.map Prod.fst
+      (renderTok cfg false (tokReg reg) ctx fuel (flatten t)).toOption.map Prod.fst
         = (specToks cfg reg ctx fuel t).toOption := by
   intro fuel
   induction fuel with
@@ -1074,10 +1076,10 @@ theorem tok_eq_spec_aux (hs : cfg.strict = false) :
   | succ fuel ih =>
     intro t hwf hcl
     have IH : ∀ n b, lookup n reg = some b →
-        (renderTok cfg (tokReg reg) ctx fuel (flatten b)).toOption.map Prod.fst
+        (renderTok cfg false (tokReg reg) ctx fuel (flatten b)).toOption.map Prod.fst
           = (specToks cfg reg ctx fuel b).toOption :=
       fun n b h => ih b (hreg n b h).1 (hreg n b h).2
-    rw [renderTok_succ_opt cfg hs, condPass_flatten ctx t hwf, loopPass_cond cfg ctx t hwf, specToks_succ,
+    rw [renderTok_succ_opt cfg, condPass_flatten ctx t hwf, loopPass_cond cfg ctx t hwf, specToks_succ,
       flatMapM_toOption, flatMapM_toOption]
     -- the variable pass, fused, on whatever the include pass produced
     have hbind : ∀ (o : Option (List Tok)),
@@ -1103,5 +1105,383 @@ theorem tok_eq_spec_aux (hs : cfg.strict = false) :
       exact incTok_clean cfg reg ctx hbf hreg fuel IH t0 ht0c l hl x hxl
 
 end Main
+
+/-! ### strict mode, warnings, marker -/
+
+theorem flatMapM_mono {ε α β : Type} {f g : α → Except ε (List β)} (h : ∀ t l, f t = .ok l → g t = .ok l)
+    (ts : List α) (r : List β) (hr : flatMapM f ts = .ok r) : flatMapM g ts = .ok r := by
+  induction ts generalizing r with
+  | nil => simpa [flatMapM] using hr
+  | cons a ts ih =>
+    simp only [flatMapM] at hr ⊢
+    cases hfa : f a with
+    | error e => rw [hfa] at hr; cases hr
+    | ok x =>
+      rw [hfa] at hr
+      rw [h a x hfa]
+      cases hfr : flatMapM f ts with
+      | error e => rw [hfr] at hr; cases hr
+      | ok y =>
+        rw [hfr] at hr
+        rw [ih y hfr]
+        exact hr
+
+theorem incTok_mono (cfg : Cfg) (reg : Reg) (rec rec' : List Tok → Except Err (List Tok × List Str))
+    (h : ∀ b r, rec b = .ok r → rec' b = .ok r) (t : Tok) (l : List Tok)
+    (hl : incTok cfg reg rec t = .ok l) : incTok cfg reg rec' t = .ok l := by
+  cases t with
+  | inc n =>
+    simp only [incTok] at hl ⊢
+    cases hlk : lookup n reg with
+    | none => rw [hlk] at hl; exact hl
+    | some b =>
+      rw [hlk] at hl
+      dsimp only at hl ⊢
+      cases hr : rec b with
+      | error e => rw [hr] at hl; cases hl
+      | ok xw => rw [hr] at hl; rw [h b xw hr]; exact hl
+  | _ => exact hl
+
+/-- a render that succeeds in strict mode is the non-strict render -/
+theorem renderTok_strict_ok (cfg : Cfg) (reg : Reg) (ctx : Ctx) :
+    ∀ (fuel : Nat) (ts : List Tok) (r : List Tok × List Str),
+      renderTok cfg true reg ctx fuel ts = .ok r → renderTok cfg false reg ctx fuel ts = .ok r := by
+  intro fuel
+  induction fuel with
+  | zero => intro ts r h; simp [renderTok] at h
+  | succ fuel ih =>
+    intro ts r h
+    simp only [renderTok, Bool.true_and, Bool.false_and, Bool.false_eq_true, ↓reduceIte] at h ⊢
+    split at h
+    · cases h
+    · cases hA : flatMapM (incTok cfg reg (fun b => renderTok cfg true reg ctx fuel b))
+          (loopPass cfg ctx (condPass ctx ts)) with
+      | error e => rw [hA] at h; cases h
+      | ok t3 =>
+        rw [hA] at h
+        rw [flatMapM_mono (incTok_mono cfg reg _ _ (fun b r hb => ih b r hb)) _ t3 hA]
+        exact h
+
+theorem mem_varNames {n : Str} {l : List Tok} : n ∈ varNames l ↔ Tok.var n ∈ l := by
+  induction l with
+  | nil => simp [varNames]
+  | cons t l ih => cases t <;> simp [varNames, ih]
+
+/-- strict mode: an unbound `{{name}}` anywhere in the template is an error -/
+theorem renderTok_strict_missing (cfg : Cfg) (reg : Reg) (ctx : Ctx) (fuel : Nat) (ts : List Tok) (n : Str)
+    (hn : Tok.var n ∈ ts) (hb : isBound ctx n = false) :
+    renderTok cfg true reg ctx (fuel + 1) ts = .error .value := by
+  have : ((varNames ts).filter (fun n => !isBound ctx n)).isEmpty = false := by
+    cases h : (varNames ts).filter (fun n => !isBound ctx n) with
+    | nil =>
+      have : n ∈ (varNames ts).filter (fun n => !isBound ctx n) :=
+        List.mem_filter.mpr ⟨mem_varNames.mpr hn, by simp [hb]⟩
+      rw [h] at this; cases this
+    | cons a r => rfl
+  simp only [renderTok, this, Bool.true_and, Bool.not_false, ↓reduceIte]
+
+/-- non-strict mode: every unbound `{{name}}` of the template is among the warnings -/
+theorem renderTok_warns_static (cfg : Cfg) (reg : Reg) (ctx : Ctx) (fuel : Nat) (ts out : List Tok) (w : List Str)
+    (h : renderTok cfg false reg ctx (fuel + 1) ts = .ok (out, w)) (n : Str)
+    (hn : Tok.var n ∈ ts) (hb : isBound ctx n = false) : n ∈ w := by
+  simp only [renderTok, Bool.false_and, Bool.false_eq_true, ↓reduceIte] at h
+  split at h
+  · cases h
+  · split at h
+    · cases h
+    · simp only [Except.ok.injEq, Prod.mk.injEq] at h
+      rw [← h.2]
+      apply List.mem_append_left
+      apply List.mem_append_left
+      exact List.mem_filter.mpr ⟨mem_varNames.mpr hn, by simp [hb]⟩
+
+/-- non-strict mode, brace-free values: every `{{name}}` left in the OUTPUT (what the expansion found unbound,
+    includes included) is among the warnings -/
+theorem renderTok_warns_dynamic (cfg : Cfg) (reg : Reg) (ctx : Ctx) (htext : ∀ n, NoLB (textOf ctx n)) (fuel : Nat)
+    (ts out : List Tok) (w : List Str)
+    (h : renderTok cfg false reg ctx (fuel + 1) ts = .ok (out, w)) (n : Str) (hn : Tok.var n ∈ out) : n ∈ w := by
+  simp only [renderTok, Bool.false_and, Bool.false_eq_true, ↓reduceIte] at h
+  split at h
+  · cases h
+  · split at h
+    · cases h
+    · simp only [Except.ok.injEq, Prod.mk.injEq] at h
+      rw [← h.2]
+      apply List.mem_append_right
+      rw [← h.1] at hn
+      obtain ⟨t, ht, hnt⟩ := List.mem_flatMap.mp hn
+      apply List.mem_flatMap.mpr
+      refine ⟨t, ht, ?_⟩
+      cases t with
+      | var m =>
+        simp only [tokD] at hnt
+        split at hnt
+        · rw [lexVal_noLB cfg _ (htext m)] at hnt; have := mem_valTok hnt; cases this
+        · rename_i hbm
+          simp at hnt; subst hnt
+          simp [warnD, hbm]
+      | _ => simp [tokD] at hnt
+
+/-- an include of an unregistered name renders as the explicit marker naming it -/
+theorem renderTok_unknown_include (cfg : Cfg) (strict : Bool) (reg : Reg) (ctx : Ctx) (fuel : Nat) (n : Str)
+    (hreg : lookup n reg = none) (hm : NoLB (cfg.markerPre ++ n ++ cfg.markerSuf)) :
+    renderTok cfg strict reg ctx (fuel + 1) [.inc n] = .ok (textTok (cfg.markerPre ++ n ++ cfg.markerSuf), []) := by
+  have hmk : markerToks cfg n = textTok (cfg.markerPre ++ n ++ cfg.markerSuf) := lex_noLB cfg _ hm
+  generalize cfg.markerPre ++ n ++ cfg.markerSuf = m at hmk ⊢
+  by_cases hme : m = []
+  · subst hme
+    simp [renderTok, varNames, condPass, condGo, loopPass, loopGo, flatMapM, incTok, hreg, hmk, textTok, passB]
+  · simp [renderTok, varNames, condPass, condGo, loopPass, loopGo, flatMapM, incTok, hreg, hmk, textTok, hme, tokA,
+      passB, isPipe, tokC, tokD, warnA, warnD]
+
+/-! ### non-interference of the specification: the contents of values never decide what is expanded -/
+
+/-- forget what a spliced-in piece says, keep that (and where) it is there -/
+def Tok.shape : Tok → Tok
+  | .val _ => .val []
+  | t => t
+
+def shapeL (l : List Tok) : List Tok := l.map Tok.shape
+
+def fresOk : FRes → Bool
+  | .ok _ => true
+  | .raise _ => false
+
+/-- pointwise relation between two lists of equal length -/
+inductive All2 {α β : Type} (R : α → β → Prop) : List α → List β → Prop
+  | nil : All2 R [] []
+  | cons {a b l l'} : R a b → All2 R l l' → All2 R (a :: l) (b :: l')
+
+/-- items agree in everything but what their texts say -/
+def ItemSim (a b : Item) : Prop := a.fields.map Prod.fst = b.fields.map Prod.fst
+
+/-- values agree in truthiness, list-ness, number of items and dict keys — not in content -/
+def ValSim (v v' : Val) : Prop :=
+  v.truthy = v'.truthy ∧ v.items.isSome = v'.items.isSome ∧ All2 ItemSim (v.items.getD []) (v'.items.getD [])
+
+def CtxSim : Ctx → Ctx → Prop := All2 (fun p q => p.1 = q.1 ∧ ValSim p.2 q.2)
+
+/-- two environments that agree on everything except what filter results say -/
+structure EnvSim (cfg cfg' : Cfg) : Prop where
+  isWord : cfg'.isWord = cfg.isWord
+  filters : cfg'.filters = cfg.filters
+  mpre : cfg'.markerPre = cfg.markerPre
+  msuf : cfg'.markerSuf = cfg.markerSuf
+  applyF : ∀ f n, fresOk (cfg'.applyF f n) = fresOk (cfg.applyF f n)
+
+theorem lookup_isSome_iff {α : Type} (k : Str) (l : List (Str × α)) : (lookup k l).isSome = true ↔ k ∈ l.map Prod.fst := by
+  induction l with
+  | nil => simp [lookup]
+  | cons p l ih =>
+    simp only [lookup, List.map_cons, List.mem_cons]
+    split
+    · rename_i h; simp [h]
+    · rename_i h
+      rw [ih]
+      constructor
+      · intro hm; exact Or.inr hm
+      · intro hm; rcases hm with hm | hm
+        · exact absurd hm.symm h
+        · exact hm
+
+theorem lookup_isSome_keys {α β : Type} (k : Str) (l : List (Str × α)) (l' : List (Str × β))
+    (h : l.map Prod.fst = l'.map Prod.fst) : (lookup k l).isSome = (lookup k l').isSome := by
+  have a := lookup_isSome_iff k l
+  have b := lookup_isSome_iff k l'
+  rw [h] at a
+  cases h1 : (lookup k l).isSome <;> cases h2 : (lookup k l').isSome <;> simp_all
+
+theorem updKey_keys (kvs : List (Str × Str)) (k v : Str) :
+    (updKey kvs k v).map Prod.fst = if k ∈ kvs.map Prod.fst then kvs.map Prod.fst else kvs.map Prod.fst ++ [k] := by
+  unfold updKey
+  have hany : (kvs.any fun p => p.1 == k) = true ↔ k ∈ kvs.map Prod.fst := by
+    simp only [List.any_eq_true, beq_iff_eq, List.mem_map]
+  by_cases h : k ∈ kvs.map Prod.fst
+  · rw [if_pos (hany.mpr h), if_pos h, List.map_map]
+    apply List.map_congr_left
+    intro p _
+    simp only [Function.comp]
+    split
+    · rename_i hp; exact hp.symm
+    · rfl
+  · rw [if_neg (fun hh => h (hany.mp hh)), if_neg h]
+    simp
+
+theorem foldl_updKey_keys (fs fs' : List (Str × Str)) (hk : fs.map Prod.fst = fs'.map Prod.fst)
+    (l l' : List (Str × Str)) (hl : l.map Prod.fst = l'.map Prod.fst) :
+    (fs.foldl (fun acc p => updKey acc p.1 p.2) l).map Prod.fst
+      = (fs'.foldl (fun acc p => updKey acc p.1 p.2) l').map Prod.fst := by
+  induction fs generalizing fs' l l' with
+  | nil =>
+    cases fs' with
+    | nil => simpa using hl
+    | cons q fs' => simp at hk
+  | cons p fs ih =>
+    cases fs' with
+    | nil => simp at hk
+    | cons q fs' =>
+      simp only [List.map_cons, List.cons.injEq] at hk
+      simp only [List.foldl_cons]
+      apply ih fs' hk.2
+      rw [updKey_keys, updKey_keys, hl, hk.1]
+
+theorem loopCtx_keys (i len i' len' : Nat) (a b : Item) (h : ItemSim a b) :
+    (loopCtx i len a).map Prod.fst = (loopCtx i' len' b).map Prod.fst := by
+  unfold loopCtx
+  exact foldl_updKey_keys _ _ h _ _ rfl
+
+theorem lookup_sim (n : Str) (ctx ctx' : Ctx) (h : CtxSim ctx ctx') :
+    (lookup n ctx = none ∧ lookup n ctx' = none) ∨
+      ∃ v v', lookup n ctx = some v ∧ lookup n ctx' = some v' ∧ ValSim v v' := by
+  induction h with
+  | nil => left; exact ⟨rfl, rfl⟩
+  | @cons p q l l' hpq _ ih =>
+    simp only [lookup]
+    rw [← hpq.1]
+    split
+    · right; exact ⟨p.2, q.2, rfl, rfl, hpq.2⟩
+    · exact ih
+
+theorem isBound_sim (n : Str) (ctx ctx' : Ctx) (h : CtxSim ctx ctx') : isBound ctx' n = isBound ctx n := by
+  unfold isBound
+  rcases lookup_sim n ctx ctx' h with ⟨a, b⟩ | ⟨v, v', a, b, _⟩ <;> simp [a, b]
+
+theorem truthyOf_sim (n : Str) (ctx ctx' : Ctx) (h : CtxSim ctx ctx') : truthyOf ctx' n = truthyOf ctx n := by
+  unfold truthyOf
+  rcases lookup_sim n ctx ctx' h with ⟨a, b⟩ | ⟨v, v', a, b, hv⟩
+  · simp [a, b]
+  · simp [a, b, hv.1.symm]
+
+theorem shapeL_append (a b : List Tok) : shapeL (a ++ b) = shapeL a ++ shapeL b := by simp [shapeL]
+
+theorem flatMapO_shape_congr {α : Type} (f g : α → Option (List Tok)) (ts : List α)
+    (h : ∀ t ∈ ts, (f t).map shapeL = (g t).map shapeL) :
+    (flatMapO f ts).map shapeL = (flatMapO g ts).map shapeL := by
+  induction ts with
+  | nil => rfl
+  | cons a ts ih =>
+    have h1 := h a (by simp)
+    have h2 := ih (fun t ht => h t (by simp [ht]))
+    simp only [flatMapO]
+    cases hfa : f a <;> cases hga : g a <;> cases hfr : flatMapO f ts <;> cases hgr : flatMapO g ts <;>
+      simp_all [shapeL_append]
+
+theorem flatMapM_shape_congr {α : Type} (f g : α → Except Err (List Tok)) (ts : List α)
+    (h : ∀ t ∈ ts, (f t).toOption.map shapeL = (g t).toOption.map shapeL) :
+    (flatMapM f ts).toOption.map shapeL = (flatMapM g ts).toOption.map shapeL := by
+  rw [flatMapM_toOption, flatMapM_toOption]
+  exact flatMapO_shape_congr _ _ ts h
+
+section Sim
+variable (cfg cfg' : Cfg) (hE : EnvSim cfg cfg') (ctx ctx' : Ctx) (hC : CtxSim ctx ctx')
+
+include hE in
+theorem isWordStr_sim (a : Str) : isWordStr cfg' a = isWordStr cfg a := by
+  unfold isWordStr; rw [hE.isWord]
+
+include hE hC in
+theorem semV_sim (t : Tok) :
+    (semV cfg ctx t).toOption.map shapeL = (semV cfg' ctx' t).toOption.map shapeL := by
+  cases t with
+  | var n =>
+    simp only [semV, isBound_sim n ctx ctx' hC]
+    split <;> simp [Except.toOption, shapeL, valTok, Tok.shape]
+  | opt n => simp [semV, Except.toOption, shapeL, valTok, Tok.shape]
+  | pipe n a =>
+    simp only [semV, pipeSem, isBound_sim n ctx ctx' hC, isWordStr_sim cfg cfg' hE, hE.filters]
+    split
+    · split
+      · have := hE.applyF a n
+        cases h1 : cfg.applyF a n <;> cases h2 : cfg'.applyF a n <;>
+          simp_all [fresOk, Except.toOption, shapeL, valTok, Tok.shape]
+      · rfl
+    · split
+      · rfl
+      · simp [Except.toOption, shapeL, valTok, Tok.shape]
+  | _ => rfl
+
+include hE hC in
+theorem specTok_sim (inc inc' : Str → Except Err (List Tok))
+    (hinc : ∀ n, (inc n).toOption.map shapeL = (inc' n).toOption.map shapeL)
+    (loop loop' : List (Str × Str)) (hl : loop.map Prod.fst = loop'.map Prod.fst) (t : Tok) :
+    (specTok cfg ctx inc loop t).toOption.map shapeL = (specTok cfg' ctx' inc' loop' t).toOption.map shapeL := by
+  have hs := semV_sim cfg cfg' hE ctx ctx' hC
+  cases t with
+  | var n =>
+    simp only [specTok]
+    have := lookup_isSome_keys n loop loop' hl
+    cases h1 : lookup n loop <;> cases h2 : lookup n loop' <;> simp_all [Except.toOption, shapeL, valTok, Tok.shape]
+  | dot =>
+    simp only [specTok]
+    have := lookup_isSome_keys kDot loop loop' hl
+    cases h1 : lookup kDot loop <;> cases h2 : lookup kDot loop' <;>
+      simp_all [Except.toOption, shapeL, valTok, Tok.shape]
+  | inc n => exact hinc n
+  | text s => exact hs (.text s)
+  | val s => exact hs (.val s)
+  | opt n => exact hs (.opt n)
+  | pipe n a => exact hs (.pipe n a)
+  | ifO ws n => exact hs (.ifO ws n)
+  | els => exact hs (.els)
+  | ifC => exact hs (.ifC)
+  | eachO ws n => exact hs (.eachO ws n)
+  | eachC => exact hs (.eachC)
+
+include hE hC in
+theorem specItems_sim (inc inc' : Str → Except Err (List Tok))
+    (hinc : ∀ n, (inc n).toOption.map shapeL = (inc' n).toOption.map shapeL)
+    (len len' : Nat) (b : List Tok) (its its' : List Item) (h : All2 ItemSim its its') (i : Nat) :
+    (specItems cfg ctx inc len b i its).toOption.map shapeL
+      = (specItems cfg' ctx' inc' len' b i its').toOption.map shapeL := by
+  induction h generalizing i with
+  | nil => rfl
+  | @cons a a' l l' hab _ ih =>
+    simp only [specItems]
+    have h1 := flatMapM_shape_congr (specTok cfg ctx inc (loopCtx i len a)) (specTok cfg' ctx' inc' (loopCtx i len' a')) b
+      (fun t _ => specTok_sim cfg cfg' hE ctx ctx' hC inc inc' hinc _ _ (loopCtx_keys i len i len' a a' hab) t)
+    have h2 := ih (i + 1)
+    cases hx : flatMapM (specTok cfg ctx inc (loopCtx i len a)) b <;>
+      cases hx' : flatMapM (specTok cfg' ctx' inc' (loopCtx i len' a')) b <;>
+      cases hy : specItems cfg ctx inc len b (i + 1) l <;>
+      cases hy' : specItems cfg' ctx' inc' len' b (i + 1) l' <;>
+      simp_all [Except.toOption, shapeL_append]
+
+include hE hC in
+theorem specSeg_sim (inc inc' : Str → Except Err (List Tok))
+    (hinc : ∀ n, (inc n).toOption.map shapeL = (inc' n).toOption.map shapeL) (s : Seg) :
+    (specSeg cfg ctx inc s).toOption.map shapeL = (specSeg cfg' ctx' inc' s).toOption.map shapeL := by
+  cases s with
+  | tok t => exact specTok_sim cfg cfg' hE ctx ctx' hC inc inc' hinc [] [] rfl t
+  | ifB ws n a e =>
+    simp only [specSeg, truthyOf_sim n ctx ctx' hC]
+    exact flatMapM_shape_congr _ _ _ (fun t _ => specTok_sim cfg cfg' hE ctx ctx' hC inc inc' hinc [] [] rfl t)
+  | each ws n b =>
+    simp only [specSeg]
+    rcases lookup_sim n ctx ctx' hC with ⟨h1, h2⟩ | ⟨v, v', h1, h2, hv⟩
+    · rw [h1, h2]
+    · rw [h1, h2]
+      dsimp only
+      obtain ⟨_, hsome, hits⟩ := hv
+      cases hi : v.items <;> cases hi' : v'.items <;> simp_all
+      exact specItems_sim cfg cfg' hE ctx ctx' hC inc inc' hinc _ _ b _ _ hits 0
+
+include hE hC in
+theorem specToks_sim (reg : SReg) : ∀ (fuel : Nat) (t : Tmpl),
+    (specToks cfg reg ctx fuel t).toOption.map shapeL = (specToks cfg' reg ctx' fuel t).toOption.map shapeL := by
+  intro fuel
+  induction fuel with
+  | zero => intro t; rfl
+  | succ fuel ih =>
+    intro t
+    simp only [specToks]
+    apply flatMapM_shape_congr
+    intro s _
+    apply specSeg_sim cfg cfg' hE ctx ctx' hC
+    intro n
+    cases lookup n reg with
+    | some b => exact ih b
+    | none => simp [markerSpec, hE.mpre, hE.msuf]
+
+end Sim
 
 end Operon.Tmpl
